@@ -719,10 +719,18 @@ impl BufferedDatabaseWriter {
         //at the end of the batch, update the daily log with all room dates that needs to be recomputed
         #[cfg(feature = "verif")]
         crate::verif_hooks::fault("batch.before_marks")?;
-        daily_log.write(conn)?;
+        //a failure here must close the transaction like a failure of any query of the batch,
+        //otherwise it stays open and every later batch fails at BEGIN
+        if let Err(e) = daily_log.write(conn) {
+            let _ = conn.execute("ROLLBACK", []);
+            return Err(e);
+        }
         #[cfg(feature = "verif")]
         crate::verif_hooks::fault("batch.before_commit")?;
-        conn.execute("COMMIT", [])?;
+        if let Err(e) = conn.execute("COMMIT", []) {
+            let _ = conn.execute("ROLLBACK", []);
+            return Err(e);
+        }
         #[cfg(feature = "verif")]
         let _ = crate::verif_hooks::fault("batch.after_commit");
 
